@@ -36,7 +36,7 @@ func BackwardSlice(v ssa.Value, o SliceOpts) map[ssa.Value]bool {
 		case *ssa.UnOp:
 			visit(i.X)
 			if i.Op == token.MUL {
-				for _, sv := range StoresTo(i.X) {
+				for _, sv := range ReachingStores(i) {
 					visit(sv)
 				}
 			}
@@ -58,6 +58,17 @@ func BackwardSlice(v ssa.Value, o SliceOpts) map[ssa.Value]bool {
 					visit(com.Value)
 				}
 				for _, a := range com.Args {
+					if al, isAlloc := a.(*ssa.Alloc); isAlloc {
+						// address of a local passed to the callee: what it can read is what reaches this call
+						if out[al] {
+							continue
+						}
+						out[al] = true
+						for _, sv := range ReachingStoresAt(i, al) {
+							visit(sv)
+						}
+						continue
+					}
 					visit(a)
 				}
 			}
@@ -243,4 +254,53 @@ func AddrRoot(a ssa.Value) ssa.Value {
 			return a
 		}
 	}
+}
+
+// ReachingStores returns the values that may be in the location a load reads, flow-sensitively:
+// the CFG is walked backwards from the load and every path stops at the first store to the same
+// location (SameLoc). If the function entry is reached without a store the location's initial
+// content (zero or caller-provided) is not represented.
+func ReachingStores(load *ssa.UnOp) []ssa.Value { return ReachingStoresAt(load, load.X) }
+
+// ReachingStoresAt is ReachingStores for an arbitrary program point and address.
+func ReachingStoresAt(at ssa.Instruction, addr ssa.Value) []ssa.Value {
+	var out []ssa.Value
+	seenVal := map[ssa.Value]bool{}
+	type pos struct {
+		b *ssa.BasicBlock
+		i int // scan instructions b.Instrs[0..i) backwards
+	}
+	start := pos{at.Block(), InstrIndex(at)}
+	seen := map[*ssa.BasicBlock]bool{}
+	stack := []pos{start}
+	first := true
+	for len(stack) > 0 {
+		p := stack[len(stack)-1]
+		stack = stack[:len(stack)-1]
+		if !first {
+			if seen[p.b] {
+				continue
+			}
+			seen[p.b] = true
+		}
+		first = false
+		killed := false
+		for i := p.i - 1; i >= 0; i-- {
+			if st, ok := p.b.Instrs[i].(*ssa.Store); ok && SameLoc(st.Addr, addr) {
+				if !seenVal[st.Val] {
+					seenVal[st.Val] = true
+					out = append(out, st.Val)
+				}
+				killed = true
+				break
+			}
+		}
+		if killed {
+			continue
+		}
+		for _, pr := range p.b.Preds {
+			stack = append(stack, pos{pr, len(pr.Instrs)})
+		}
+	}
+	return out
 }
